@@ -171,6 +171,10 @@ def main(tier: str) -> int:
               genotype_to_phenotype=W.g2p_shift, genotype_to_phenotype_args={"shift": np.array([0.5, -0.5, 0.25])}, iters=3, pop_size=8, left_border=-2.0, right_border=2.0,
               num_variables=3, minimization=True)),
         ("SHAGA+g2p", SHAGA, dict(fitness_function=W.sphere_delayed, genotype_to_phenotype=W.g2p_scale, iters=3, pop_size=7, str_len=10)),
+        # one number per individual as the phenotype (a 1-D phenotype population; chunks of equal and of unequal length)
+        ("GeneticAlgorithm+g2p to one number", GeneticAlgorithm, dict(fitness_function=W.scalar_value_delayed, genotype_to_phenotype=W.g2p_rowsum, iters=3, pop_size=8, str_len=10)),
+        ("DifferentialEvolution+g2p to one number", DifferentialEvolution, dict(fitness_function=W.scalar_value_delayed, genotype_to_phenotype=W.g2p_rowsum, iters=3, pop_size=7,
+                                                                                left_border=-2.0, right_border=2.0, num_variables=3)),
     ]
     if tier == "quick":
         njs = [2, 3, 13, -1]
@@ -195,6 +199,29 @@ def main(tier: str) -> int:
                              {"optimizer": name, "n_jobs": nj, "delay_pattern": delays, "differs_in": what,
                               "calls": [base["calls"], got["calls"]], "best": [base["best"], got["best"]], "second_fit": [base["second_fit"], got["second_fit"]]},
                              {"fn": "parallel_run", "negative": nj < 0})
+    # "for any n_jobs" on any host: the same comparison on a machine that reports a single core (and one that reports two)
+    import thefittest.base._ea as _ea_mod
+    real_cpu = _ea_mod.cpu_count
+    for cores in (1, 2):
+        _ea_mod.cpu_count = lambda *a, **k: cores      # noqa: E731
+        try:
+            for name, cls, kw in fams[:2]:
+                base = run(cls, kw, 1, 0)
+                for nj in (2, 9):
+                    try:
+                        got = run(cls, kw, nj, 1)
+                    except Exception as e:  # noqa
+                        chk.fail("a run with n_jobs > 1 raises although the run with n_jobs = 1 completes",
+                                 {"optimizer": name, "n_jobs": nj, "cores_reported_by_the_host": cores, "error": (type(e).__name__ + ": " + str(e))[:200]},
+                                 {"fn": "parallel_run", "clause": "raises_single_core"})
+                        break
+                    chk.count("parallel_runs_other_hosts")
+                    chk.case(("run_cores", name, nj, cores))
+                    if got != base:
+                        chk.fail("a run with n_jobs > 1 differs from the run with n_jobs = 1", {"optimizer": name, "n_jobs": nj, "cores_reported_by_the_host": cores},
+                                 {"fn": "parallel_run", "clause": "cores"})
+        finally:
+            _ea_mod.cpu_count = real_cpu
     chk.distribution["parallel_wall_s"] = round(time.time() - t0, 1)
 
     try:
